@@ -47,6 +47,59 @@ CLAIMS["C04"] = dict(
     technique="Lean 4 proof (structural invariant of the slot queue, induction over op lists and loop fuel, bit-level SACK lemma by decide) + differential correspondence",
     ref="5 C04")
 
+L2NOTE = 'Trusted: Lean kernel; constants translator; the hand-written connection model (Model/VSock.lean and below) whose tie to stream_dispatch.rs is the lockstep correspondence (byte-exact datagrams, poll results, wakes, congestion-controller call log, state fingerprint after every op, adaptive scripted peer + directed families); congestion-controller return values are adopted from the implementation in lockstep and universally quantified in theorems; tokio runtime behaviour (re-poll of woken tasks, Sleep firing) is assumed. '
+
+CLAIMS["C18"] = dict(
+    text="Lean theorems about the segmentation loop of split_tx_queue_into_segments, for every state, buffer content and peer window: with Nagle on every segment created is either as large as it could be (payload = min(segment size, peer window left)) or was created when no earlier segment was outstanding; every created segment is >= 1 byte (termination), fits the window and the bytes left; with Nagle off the loop stops only when everything buffered is segmented, the peer window is used up, or the segment just created is an MTU probe. Lockstep correspondence ties the model to the code.",
+    note=L2NOTE + "First-transmission sizes equal enqueue sizes because the sender never re-segments except popped probes (C06 content-stability lemmas). The property is read at segmentation time (uTP does not re-segment): a window-limited partial segment may be transmitted later when the window is larger.",
+    technique="Lean 4 proof (induction over the segmentation loop) + lockstep correspondence of the connection model",
+    ref="5 C18")
+CLAIMS["C05"] = dict(
+    text="Lean theorems about send_tx_queue: the first-transmission loop sends a segment only while the remaining budget covers it and subtracts what it sent, so with budget min(cwnd, last_remote_window) - flight the outstanding bytes never exceed the window last advertised; with a zero window the budget is 0 and nothing new leaves; while the RTO counter is set and the timer has not expired send_tx_queue returns without sending. Lockstep correspondence + implementation-side window oracle over scripted ACK/window histories.",
+    note=L2NOTE + "The slow-start history clause (outstanding <= 2 segments + bytes acked before the first loss) composes these with the CUBIC model (C15) and is covered by the lockstep/oracle until C15's composition theorem is added.",
+    technique="Lean 4 proof (induction over the send loop) + lockstep correspondence + window oracle",
+    ref="5 C05")
+CLAIMS["C07"] = dict(
+    text="Lean theorems about maybe_send_ack / next_timer_to_poll for every state: if the unacknowledged bytes reached 2 x segment size (every forced case sets them to usize::MAX), or the window flipped to/from zero, or the delayed-ACK timer expired with something to acknowledge, send_ack runs; otherwise any unacknowledged consumed byte leaves the delayed-ACK timer armed with deadline <= now + 40 ms and never later than it was; otherwise nothing is sent; the re-poll time handed to the runtime is <= the delayed-ACK deadline; ACK_DELAY = 40 ms and the factor 2 are the regenerated constants. Lockstep correspondence + ack-timeliness oracle (re-poll requested within 40 ms, ACK on the wire by then).",
+    note=L2NOTE + "That the runtime actually re-polls at the requested time is the tokio assumption shared with C02. The forcing sites inside process_incoming_message (duplicate / out-of-order / gap fill / FIN set the counter to MAX and send at once) are covered by the lockstep, not by a separate theorem.",
+    technique="Lean 4 proof (case analysis of the ACK decision, min-fold lemma) + lockstep correspondence + timing oracle",
+    ref="5 C07")
+CLAIMS["C17"] = dict(
+    text="Lean theorems over the transition table (stateGate) and the FIN/SYN-ACK functions for every state and header: closing on own initiative assigns the next sequence number to the FIN exactly once; the FIN is emitted only when fin - last_sent = 1 (everything before it transmitted), is an ST_FIN with that number, arms the retransmission timer; a RESET always ends in Closed with StResetReceived unless LastAck and it acknowledges our FIN, and emits nothing; SYN is ignored; an out-of-sequence FIN is dropped without state change in Established/FinWait1/FinWait2; an in-sequence FIN in Established moves to LastAck scheduling our FIN; SynAckSent is left only by DATA/STATE acknowledging seq_nr-1; SYN-ACK resend waits for the 200 ms timer and fails with MaxSynAckRetransmissionsReached at the cap. Lockstep correspondence incl. a handshake/teardown matrix family + stream-content/FIN oracle.",
+    note=L2NOTE + "The FIN rules are stated for closing on the endpoint's own initiative (FinWait1); a FIN sent in answer to the peer's FIN, or on the death path, may precede unsent data by design (data after a remote FIN is discarded).",
+    technique="Lean 4 proof (transition-table case analysis) + lockstep correspondence + FIN/stream oracle",
+    ref="5 C17")
+CLAIMS["C06"] = dict(
+    text="Lean theorems: send_data! refuses with MaxRetransmissionsReached whenever the segment's retransmit count equals the limit, on every path; on_sent increases the count by one; RTO expiry resends the first undelivered segment, doubles the estimator's RTO (C16 doubling within [200 ms, 60 s]), restarts the timer with the doubled value, rewinds last_sent and enters RTO mode; SACK duplicate counting reaches the threshold 3 immediately with >= 3 bits and by one per SACK-bearing ACK otherwise, non-SACK counting requires same ack_nr/window ST_STATE; IgnoringUntilRecoveryPoint never enters recovery; iter_mut_for_sending never yields a delivered segment; ack processing, sending and pipe estimation never change the byte range a queued segment addresses (content stability); Karn's rule. Segments differential + lockstep correspondence (incl. RTO-then-SACK family) + stream-content oracle.",
+    note=L2NOTE + "A re-segmented probe may reuse a sequence number whose first copy was delivered while its ACKs were lost (design-level, DESIGN section 6 D2): listed as a limitation of the property the code was written to, not claimed proved.",
+    technique="Lean 4 proof (Segments invariants, Recovery/RTO step lemmas) + Segments differential + lockstep correspondence",
+    ref="5 C06")
+CLAIMS["C03"] = dict(
+    text="Lean theorems: flush returns Ok only with an empty ring, and (C19 ghost history) for every history that means bytes accepted = bytes removed by acknowledgement processing; shutdown returns Ok only on an empty ring of a closed connection; the death path marks both halves closed and fires every registered reader/writer waker; on a closed connection write fails, flush/shutdown return Ok or an error and read (non-empty buffer) never returns Pending; end-of-stream is never returned while a partially read message or a queued payload precedes the EOF marker. Lockstep correspondence + calls-resolve and stream oracles; TxRing/Rx differentials.",
+    note=L2NOTE + "The cross-endpoint step 'what the sender removed the receiver holds in order' composes C04 (ack honesty), C06 (content stability) and C09 and is not mechanised over two endpoints (same gap as C01). Bounded detection time rests on C06 (retry cap) + C08 (inactivity/final-chance timers) + the runtime assumption.",
+    technique="Lean 4 proof (TxRing/Rx invariants, read-loop induction, death-path lemma) + lockstep correspondence + oracles",
+    ref="5 C03")
+CLAIMS["C02"] = dict(
+    text="Lean theorems for the code's obligations (liveness itself needs the runtime): every accepted send_data! leaves the retransmission timer armed no later than now + RTO and the inactivity timer armed; the re-poll request is <= every armed protocol timer when the transport is writable (and the inactivity deadline when it is blocked); the connection registers its waker when it finds the ring empty, and an accepting write / shutdown request / writer drop fire it (C19); a read returning bytes fires the registered connection waker; flush wakes the reader also for a lone EOF marker (fixed defect); an ACK at or beyond the first unacknowledged segment removes at least one segment (strict progress). Lockstep correspondence compares every wake event and the Sleep deadline after every operation.",
+    note=L2NOTE + "PARTIAL: 'eventually' over fair-lossy schedules is not a theorem here; it follows from these step facts plus the tokio assumptions. Two lost-wake-up defects (poll_shutdown, EOF flush) were found and fixed. The 5 s tracing tick of spawn_utils is not part of the model: wake events are compared exactly, so a wake that only the tick would mask shows as a disagreement.",
+    technique="Lean 4 proof (timer/wake step lemmas, progress lemma) + lockstep correspondence of wake events and timers",
+    ref="5 C02")
+CLAIMS["C08"] = dict(
+    text="Lean theorems (connection part): once the state is at or past our own FIN every Pending poll leaves the inactivity timer armed no later than one second after that poll and never extends an existing deadline; local close is absorbing under the transition table; Closed (or LastAck when the last ACK is not awaited) makes poll finish. Lockstep correspondence incl. teardown families; after Ready the harness drops the future and nothing more is emitted.",
+    note=L2NOTE + "PARTIAL: slot release and the connection limit are socket-table facts (C12/C13 model, in progress); that Rust runs the Drop guard sending Shutdown(key) when the task's future is dropped, that tokio drops a finished/cancelled task's future, and that the socket dispatcher drains its control channel are assumptions the model cannot exhibit.",
+    technique="Lean 4 proof (timer and transition lemmas) + lockstep correspondence",
+    ref="5 C08")
+CLAIMS["C10"] = dict(
+    text="Lean theorems, for every byte string / header and every state satisfying the component invariant: the parser returns a header size within the datagram or rejects (never panics); any ack_nr with any selective-ACK bytes leaves the TX queue consistent and cannot underflow; any data/FIN packet at any offset leaves the reassembly queue consistent, never BugAssemblerMissingSlot, flush cannot panic; BugInvalidMessage only for types the connection never passes; iteration and probe pops never panic; the transition table fails only with StResetReceived outside SynReceived. Wire/Segments/Rx differentials + lockstep with a hostile peer stream + bug_errors oracle (found and fixed: BugRecvInClosed reachable with a blocked transport).",
+    note=L2NOTE + "PARTIAL: 'poll never ends in Bug*' is proved per component, the composition over poll is covered by the lockstep + oracle; cross-connection isolation is a socket-table fact (C12); the per-connection UnboundedReceiver has no bound in the code (TODO in the source) and is an assumption.",
+    technique="Lean 4 proof (component invariants for all inputs) + differentials + lockstep correspondence with hostile peer",
+    ref="5 C10")
+CLAIMS["C01"] = dict(
+    text="Lean theorems (data-plane invariants): with the ring = ghost stream minus the acknowledged prefix and the segment queue addressing a contiguous range of it, every payload send_data! gathers for any queued segment, for every ring wrap position, is exactly written[offset_abs, offset_abs+size) and never a Bug* error; ack processing for any header + truncate_front of the reported bytes, segmentation, writes and probe pops all re-establish that coupling; retransmissions carry the same bytes; a reassembly slot holds exactly what was stored for its position, duplicates never overwrite, slots reach the reader in order (C04). Segments/TxRing/Rx differentials with position-coded payloads + lockstep correspondence + stream-content oracle.",
+    note=L2NOTE + "PARTIAL: the end-to-end induction over two endpoints and an adversarial network (read is a prefix of written for every schedule) is not mechanised; it composes these invariants with C04, C09 and the network assumption (delivered datagrams were sent, staleness below the tolerance). Known limitation (DESIGN D2): re-segmentation of an expired probe whose first copy was delivered.",
+    technique="Lean 4 proof (sender coupling invariant, receiver slot lemmas) + differentials + lockstep correspondence + content oracle",
+    ref="5 C01")
+
 PENDING = {
 }
 
